@@ -2,12 +2,17 @@ SPECIFICATION Spec
 CONSTANTS
   NW = 3
   NC = 2
-  Inc = {0,1,6,12}
+  Inc = {1,6,12}
   Thr = 10
   Mode = "all"
   Contig = TRUE
+  Hows = {"set","obs"}
+  NatStep = 10
+  ObsPos = {9,11,19,21,31}
   Export = TRUE
 INVARIANT TxPointwiseLicensed
 INVARIANT EmPointwiseLicensed
+INVARIANT TxRunLicensed
+INVARIANT EmRunLicensed
 CONSTRAINT Emit
 CHECK_DEADLOCK FALSE
